@@ -88,6 +88,7 @@ type Client struct {
 	Name    string
 	Dead    bool
 	DeadAt  int // event seq at which it died
+	Held    bool // one of its calls is frozen (World.Hold): its tasks do not count as outstanding
 	Writes  int // number of write calls applied or attempted (crash-point index)
 	Calls   int
 	w       *World
@@ -172,6 +173,8 @@ type World struct {
 	Cfg Config
 
 	mu      sync.Mutex
+	hold    func(*Call) bool // calls it accepts are frozen when they arrive (see Hold)
+	held    []*Call
 	yielder   *Client
 	yieldDisk *Disk
 	parked  []*Call
@@ -393,11 +396,41 @@ func (w *World) liveTasks() int {
 	defer w.mu.Unlock()
 	n := 0
 	for _, t := range w.tasks {
-		if !t.Done && !t.Client.Dead {
+		if !t.Done && !t.Client.Dead && !t.Client.Held {
 			n++
 		}
 	}
 	return n
+}
+
+// Hold freezes, from now on, every arriving call that match accepts: the call is not offered to the scheduler and its
+// client counts as absent (Run returns without it) until ReleaseHeld. It models an operation that stays in flight -
+// a slow uploader stuck before its last write - while other operations start and finish.
+func (w *World) Hold(match func(*Call) bool) {
+	w.mu.Lock()
+	w.hold = match
+	w.mu.Unlock()
+}
+
+// ReleaseHeld stops holding and offers the frozen calls to the scheduler again.
+func (w *World) ReleaseHeld() int {
+	w.mu.Lock()
+	defer w.mu.Unlock()
+	w.hold = nil
+	n := len(w.held)
+	for _, c := range w.held {
+		c.Client.Held = false
+		w.parked = append(w.parked, c)
+	}
+	w.held = nil
+	return n
+}
+
+// HeldCalls is the number of calls currently frozen.
+func (w *World) HeldCalls() int {
+	w.mu.Lock()
+	defer w.mu.Unlock()
+	return len(w.held)
 }
 
 func (w *World) outstanding() string {
